@@ -349,7 +349,7 @@ def run(ch: Choices, opts: Dict[str, Any]) -> Dict[str, Any]:
         raise Violation("request", "request|count", {"puts": len(puts), "creates": len(creates), **sample})
     for c, req in zip(creates, puts):
         want = expected_request(c)
-        want["purpose_id"] = pfun(c["sock"])     # what this node's stack assigns to the socket
+        want["purpose_id"] = pfun(c["sock"], GHOSTS[c["peer"]])     # what this node's stack assigns to the socket
         for field, wv in want.items():
             gv = getattr(req, field)
             if not same_value(gv, wv):
@@ -392,7 +392,7 @@ def run(ch: Choices, opts: Dict[str, Any]) -> Dict[str, Any]:
     um = node.unit_module(conn.app_id)
     for c, (rk, handles, infos) in zip(calls, state["results"]):
         role = "create" if c["kind"].startswith("create") else "recv"
-        key = (role, GHOSTS[c["peer"]], pfun(c["sock"]))
+        key = (role, GHOSTS[c["peer"]], pfun(c["sock"], GHOSTS[c["peer"]]))
         off = cursor.get(key, 0)
         cursor[key] = off + c["number"]
         resp = by_key.get(key, [])[off:off + c["number"]]
